@@ -7,7 +7,7 @@ use crate::client::{consume, End, ReadPlan};
 use crate::framework::{show, Ctx, Gen, Property, Tier};
 use crate::respgen::Segmentation;
 use crate::rng::Rng;
-use crate::transport::World;
+use crate::transport::{Step, World};
 
 pub fn property() -> Property {
     Property {
@@ -68,10 +68,13 @@ fn cl_config(i: usize) -> (Vec<&'static str>, ClVerdict) {
         23 => (vec!["Content-Length: 7", "Content-Length: 7", "Content-Length: seven"], ClVerdict::Invalid),
         24 => (vec!["Content-Length: 7", "Content-Length: 7", "Content-Length: 7", "Content-Length: -7"], ClVerdict::Invalid),
         25 => (vec!["Content-Length: 7", "content-length: 7", "Content-Length: 7", "Content-Length: 7", "Content-Length:"], ClVerdict::Invalid),
+        // a minus sign makes a value non-numeric whatever follows it; a length is an unsigned 64-bit number
+        26 => (vec!["Content-Length: -0"], ClVerdict::Invalid),
+        27 => (vec!["Content-Length: 0", "Content-Length: -0"], ClVerdict::Invalid),
         _ => unreachable!(),
     }
 }
-const N_CL: usize = 26;
+const N_CL: usize = 28;
 
 #[derive(Clone, Copy, Debug, PartialEq)]
 enum TeVerdict {
@@ -127,16 +130,45 @@ fn gens(tier: Tier) -> Vec<Gen> {
     vec![
         Gen { name: "matrix", count: matrix_size(), exhaustive: true, run: run_matrix_whole },
         Gen { name: "matrix-bytewise", count: tier.pick(matrix_size() / 7, matrix_size()), exhaustive: tier == Tier::Thorough, run: run_matrix_bytewise },
+        Gen { name: "huge-lengths", count: 8, exhaustive: true, run: run_huge_lengths },
         Gen { name: "redirect-bad-length", count: (5 * 8) as u64, exhaustive: true, run: run_redirect_bad_length },
         Gen { name: "matrix-randomseg", count: tier.pick(0, matrix_size()), exhaustive: false, run: run_matrix_random },
     ]
+}
+
+/// lengths between 2^63 and 2^64-1 are valid 64-bit lengths (also as repeated identical copies): the
+/// length framing applies - send() succeeds, the bytes that arrive are delivered, and the early end
+/// of the connection is an error, not a clean end
+fn run_huge_lengths(ctx: &mut Ctx, _rng: &mut Rng, index: u64) {
+    let value = ["9223372036854775807", "9223372036854775808", "18446744073709551615", "12345678901234567890"][(index % 4) as usize];
+    let twice = index / 4 == 1;
+    let mut wire = b"HTTP/1.1 200 OK\r\n".to_vec();
+    for _ in 0..if twice { 2 } else { 1 } {
+        wire.extend_from_slice(format!("Content-Length: {value}\r\n").as_bytes());
+    }
+    wire.extend_from_slice(b"\r\nonly these bytes arrive");
+    let mut steps = Segmentation::Whole.apply(&wire);
+    steps.push(Step::Eof);
+    let _world = World::single(steps);
+    let descr = format!("Content-Length: {value}{} followed by 22 body bytes and the end of the connection", if twice { " (sent twice)" } else { "" });
+    ctx.count("huge_length_cases", 1);
+    match attohttpc::get("http://origin.test/c03").send() {
+        Err(e) => ctx.violation("valid-length-refused:huge", format!("send() failed with {e:?}; {descr}")),
+        Ok(resp) => {
+            let out = consume(resp, &ReadPlan::Loop { sizes: vec![7, 4096], via_split: false }, 1);
+            if out.delivered != b"only these bytes arrive" || matches!(out.end, End::Clean) {
+                ctx.violation("wrong-framing:length:huge", format!("delivered {:?}, end {:?}; {descr}", show(&out.delivered), out.end));
+            }
+        }
+    }
+    ctx.nontrivial(descr.as_bytes());
 }
 
 fn run_matrix_whole(ctx: &mut Ctx, rng: &mut Rng, index: u64) {
     run_matrix(ctx, rng, index, 0)
 }
 fn run_matrix_bytewise(ctx: &mut Ctx, rng: &mut Rng, index: u64) {
-    // quick tier: a stride through the matrix (7 is coprime to the matrix size 5 x 12 x 26 x 17 x 2)
+    // quick tier: a stride through the matrix (7 is coprime to the matrix size 5 x 12 x 28 x 17 x 2)
     let idx = if ctx.tier == Tier::Quick { index * 7 } else { index };
     run_matrix(ctx, rng, idx % matrix_size(), 1)
 }
